@@ -153,6 +153,51 @@ def refusal_tie(tie, rng, n):
                     "parameter, missing, doubled, or misspelt (each must be refused with a diagnostic), model outcome compared")
 
 
+def clone_bound_tie(tie, rng, n):
+    """educed Clone on a union is `*self`: in the automatic mode its where-clause must ask every field type to be Copy
+    (with or without an educed Copy), `bound(*)` every type parameter"""
+    from .. import attr
+    cases = []
+    for i in range(n):
+        generic = rng.random() < 0.7
+        tys = rng.sample(["T", "[T; 2]", "u8", "[u8; 4]", "u32", "::core::mem::ManuallyDrop<T>", "(T, u8)"] if generic else ["u8", "[u8; 4]", "u32", "f32"], rng.randint(1, 3))
+        if generic and not any("T" in t for t in tys):
+            tys[0] = "T"
+        mode = rng.choice(["auto", "auto", "all"])
+        clone = "Clone" if mode == "auto" else "Clone(bound(*))"
+        traits = rng.choice([[clone], [clone, "Copy"], ["Copy", clone]])
+        fields = ", ".join("%s: %s" % (gen.FIELD_NAMES[j], t) for j, t in enumerate(tys))
+        src = "#[derive(Educe)]\n#[educe(%s)]\npub union U%d%s { %s }" % (", ".join(traits), i, "<T>" if generic else "", fields)
+        want = [attr.nospace(t) + ":::core::marker::Copy" for t in tys] if mode == "auto" else (["T:::core::marker::Copy"] if generic else [])
+        cases.append((src, want))
+    try:
+        real = attr.expand_real([(i, s) for i, (s, _) in enumerate(cases)])
+        model = attr.expand_model(real)
+    except (common.BuildError, RuntimeError) as e:
+        tie["broken"].append("B2: " + str(e)[:400])
+        return
+    ok = 0
+    for i, (src, want) in enumerate(cases):
+        r = real[i]
+        tie["evaluations"] += 1
+        if r["outcome"] != "ok":
+            tie["failing"].append({"what": "educed Clone on a union is refused", "rust_source": src, "observed": r.get("message", r["outcome"])[:300], "expected_spec": "accepted"})
+            continue
+        got = dict(attr.real_items(r)).get("Clone")
+        if got != want:
+            tie["failing"].append({"what": "the where-clause of the bitwise union Clone does not require Copy of the field types", "rust_source": src,
+                                   "observed": got, "expected_spec": want})
+            continue
+        bad = attr.compare(r, model.get(i)) if model.get(i) else ["no model result"]
+        if bad:
+            tie["broken"].append("B2: " + bad[0][:200])
+            tie["broken_details"].append({"rust_source": src, "disagreement": bad})
+        ok += 1
+    tie["extra"]["union_clone_headers"] = ok
+    tie["rule"] += ("; Clone tie (in-process): 1-3-field unions, generic or not, Clone alone / with Copy, automatic and bound(*) modes: the Clone "
+                    "impl's appended predicates must be `FieldTy: Copy` per field (resp. `T: Copy`), model agrees")
+
+
 def main(tier):
     t0 = time.time()
     proof = common.proof_obligations("C20")
@@ -160,6 +205,7 @@ def main(tier):
     tie = b1.run_b1("C20", P(), n_defs, 1, common.seed())
     import random
     refusal_tie(tie, random.Random(common.seed() + 7), 200 if tier == "quick" else 3000)
+    clone_bound_tie(tie, random.Random(common.seed() + 11), 100 if tier == "quick" else 1500)
     tie["failing"] = tie["failing"][:4]
     tie["broken"] = tie["broken"][:4]
     return common.finish("C20", tier, t0, proof, tie)
